@@ -610,7 +610,8 @@ class CSSStyleSheet(cssutils.stylesheets.StyleSheet):
         self._checkReadonly()
 
         # check position
-        if index is None:
+        if index is None or inOrder:
+            # (inOrder: a proper place is looked for, `index` is ignored)
             index = len(self._cssRules)
         elif index < 0 or index > self._cssRules.length:
             raise xml.dom.IndexSizeErr(
